@@ -912,7 +912,12 @@ MANIFEST = {
         "Trusted: Coq kernel + vm_compute; the symbolic evaluator, its NumPy identities and the one loop summary; the "
         "locality table of NumPy/SciPy symbols (the theorems quantify over all interpretations satisfying it; for "
         "correlate/convolve and erosion/dilation it is additionally tied to reference models checked against SciPy); "
-        "extraction (ExtrOcamlBasic only). The tie between programs and code is by translation, not a proof about Python."),
+        "extraction (ExtrOcamlBasic only). The tie between programs and code is by translation, not a proof about Python. "
+        "Known finding F24: with 0/1 masks of integer dtype 23 of the listed functions index with the mask without casting "
+        "it to bool and leak / do not restore / raise; such failures are attributed (function in the list, non-bool integer "
+        "mask, the same calls with mask.astype(bool) pass) and reported as KNOWN-FINDING, everything else is a violation; the "
+        "main theorems read the mask as a boolean array, C12_integer_masks_handled covers the other 19 functions under the "
+        "integer-mask reading."),
     "technique": "Coq proof of a dataflow checker + per-run AST translation of the source + two-run differential oracle",
     "design_ref": "DESIGN.md section 7, C12",
 }
